@@ -325,6 +325,47 @@ def _inside(st, loop):
     return False
 
 
+def _n(e):
+    return ast.unparse(e).replace(' ', '')
+
+
+def check_state(rep, ix):
+    """(1) the list of logical files is rebuilt from nothing on every entry of the index (or emptied by both the constructor and
+    the exit), so entering the same index again does not append every logical file a second time; (2) a decoded table is
+    changed only while it is built: presenting it (strings, sorted or not) leaves rows and the name map as decoded"""
+    m = ix.module(LF)
+    cls = ix.get_class(LF, 'LogicalIndex')
+    ent = ix.get_func(LF, 'LogicalIndex.__enter__')
+    site = f'{LF}:LogicalIndex.__enter__'
+    g = cfgmod.CFG(ent)
+    dom = g.dominators()
+    grows = [common.stmt_containing(n) if not isinstance(n, ast.stmt) else n for n in common.mutations_of(ent, 'self.logical_files')
+             if isinstance(n, ast.Call)]
+    fresh = [s for s in g.stmts() if isinstance(s, ast.Assign) and any(attr_chain(t) == 'self.logical_files' for t in s.targets) and _n(s.value) in ('[]', 'list()')]
+    in_enter = bool(grows) and bool(fresh) and all(any(f_ in dom.get(s, ()) for f_ in fresh) for s in grows)
+
+    def resets(qual):
+        f = ix.find_func(LF, qual)
+        return f is not None and any(isinstance(s, ast.Assign) and any(attr_chain(t) == 'self.logical_files' for t in s.targets) and _n(s.value) in ('[]', 'list()') for s in ast.walk(f))
+    elsewhere = resets('LogicalIndex.__init__') and resets('LogicalIndex.__exit__')
+    rep.ob('R-C03-SPLIT', site, 'the logical files are collected into an empty list on every entry', bool(grows) and (in_enter or elsewhere),
+           found=f'{len(grows)} append(s); reset in __enter__: {in_enter}; reset in __init__ and __exit__: {elsewhere}',
+           required='self.logical_files = [] before the loop of __enter__, or in both __init__ and __exit__', node=ent, module=m)
+    em = ix.module(EF)
+    ecls = ix.get_class(EF, 'ExplicitlyFormattedLogicalRecord')
+    builders = common.init_closure(ecls)
+    n = 0
+    for f in ecls.body:
+        if not isinstance(f, ast.FunctionDef) or f.name in builders:
+            continue
+        for attr in ('self.objects', 'self.object_name_map'):
+            muts = common.mutations_of(f, attr)
+            n += 1
+            rep.ob('R-C03-SPLIT', f'{EF}:ExplicitlyFormattedLogicalRecord.{f.name}', f'{f.name}() leaves {attr} as decoded', not muts,
+                   found='; '.join(_n(common.stmt_containing(x) if not isinstance(x, ast.stmt) else x)[:80] for x in muts), required='no rebinding, item store or in-place method outside the constructor',
+                   node=muts[0] if muts else f, module=em, nontrivial=bool(muts) or n <= 4)
+
+
 def check_split(rep, ix):
     m = ix.module(LF)
     f = ix.get_func(LF, 'LogicalFile.is_next')
@@ -422,6 +463,7 @@ def run(rep, ix, tier):
     check_order(rep, ix)
     check_cursor(rep, ix)
     check_split(rep, ix)
+    check_state(rep, ix)
     check_map(rep, ix)
     # attribute values are decoded by the RP66V1 representation-code readers (pRepCode.py is an anchor): same rule as C07
     from . import C07
